@@ -62,8 +62,16 @@ func c18Render(items []c18Item) string {
 			}
 		}
 	}
-	return sb.String()
+	out := sb.String()
+	if c18NoFinalNL && len(items) > 0 && items[len(items)-1].Kind != "blank" {
+		out = strings.TrimSuffix(out, "\n") // an editor that does not end the last line
+	}
+	return out
 }
+
+// c18NoFinalNL: external writers of this run leave the last line without a newline (set per
+// run from the tape, like longKeys in C10)
+var c18NoFinalNL bool
 
 var c18Keys = []string{"debug", "net_udp_port", "tx.max_count", "hosts", "rate", "trace_ignore_set", "name", "log_level", "a.b.c", "limit64"}
 
@@ -346,7 +354,8 @@ type c18WB struct {
 }
 
 type c18Data struct {
-	Overlaps    int `json:"external_edits_inside_writebacks,omitempty"`
+	NoFinalNL   bool `json:"no_final_newline,omitempty"`
+	Overlaps    int  `json:"external_edits_inside_writebacks,omitempty"`
 	overlapNext []c18Item
 	Versions    [][]c18Item `json:"-"`
 	VersionStr  []string    `json:"versions"`
@@ -450,6 +459,8 @@ func (d *c18Data) boundary(kind, path string) {
 func c18Body(rc *RunCtx) {
 	d := &c18Data{ever: map[string]map[string]bool{}, path: "/wh/whatap.conf"}
 	rc.Data = d
+	c18NoFinalNL = simrt.ChanceF(1, 3)
+	d.NoFinalNL = c18NoFinalNL
 	disk := simos.Reset()
 	d.disk = disk
 	disk.MkdirAllRaw("/wh")
@@ -951,6 +962,7 @@ func init() {
 func c18CrashBody(rc *RunCtx) {
 	d := &c18Crash{KV1: map[string]string{}, KV2: map[string]string{}, Got: map[string]string{}}
 	rc.Data = d
+	c18NoFinalNL = simrt.ChanceF(1, 3)
 	disk := simos.Reset()
 	disk.MkdirAllRaw("/wh")
 	path := "/wh/whatap.conf"
